@@ -111,7 +111,7 @@ fn main() {
     }
     match family {
         "udpstore" => store::run(&mut out, seed, cases, maxops, &replay, false),
-        "udpnet" => udpnet::run(&mut out, seed, cases, &replay, arg(&args, "--uring-resp-buf", 2048), arg(&args, "--mio-only", 0) == 1),
+        "udpnet" => udpnet::run(&mut out, seed, cases, &replay, arg(&args, "--uring-resp-buf", 2048), arg(&args, "--mio-only", 0) == 1, arg(&args, "--boundaries-first", 0) == 1),
         "udpstats" => udpstats::run(&mut out, seed, cases, maxops, &replay),
         "rawbytes" => rawbytes::run(&mut out, seed, cases, &replay),
         "udpconc" => udpconc::run(&mut out, seed, cases, arg(&args, "--schedules", 300), &replay),
